@@ -83,12 +83,13 @@ func sortFnOf(name string) iface.EntrySortFn {
 }
 
 type replica struct {
-	log   *ipfslog.IPFSLog
-	ac    accesscontroller.Interface
-	sort  string
-	logID string
-	ident string
-	keyed bool
+	log    *ipfslog.IPFSLog
+	ac     accesscontroller.Interface
+	sort   string
+	logID  string
+	ident  string
+	keyed  bool
+	opened bool // opened over a selection of another replica's entries (not part of the finale exchange)
 }
 
 type world struct {
@@ -271,6 +272,7 @@ type histRun struct {
 	forks, merges, tiesPresent, boundedJoins, denied, panics int
 	faulted                                                  int // operations run while the store refused writes
 	opens                                                    int // replicas opened over a selection of another replica's entries
+	iterOpts                                                 map[int]*ipfslog.IteratorOptions
 	nEntries                                                 int
 	inImpl                                                   bool // true while a library call is executing
 	noOracle                                                 bool // replayed copy used as an oracle: no nested oracles
@@ -555,7 +557,11 @@ func (h *histRun) exec() {
 				if len(denied) > 0 {
 					ac = &denyAC{denied: denied}
 				}
-				lopts := &ipfslog.LogOptions{ID: src.logID, SortFn: sortFnOf(o.Sort), AccessController: ac, Entries: om}
+				openID := src.logID
+				if o.LogID != "" {
+					openID = o.LogID // LogOptions.ID is the caller's: a log may be opened under another id than its entries carry
+				}
+				lopts := &ipfslog.LogOptions{ID: openID, SortFn: sortFnOf(o.Sort), AccessController: ac, Entries: om}
 				if src.keyed {
 					lopts.IO = w.sealedIO()
 				}
@@ -565,11 +571,12 @@ func (h *histRun) exec() {
 				if err != nil {
 					panic(err)
 				}
-				w.reps = append(w.reps, &replica{log: l, ac: ac, sort: o.Sort, logID: src.logID, ident: o.Ident, keyed: src.keyed})
+				w.reps = append(w.reps, &replica{log: l, ac: ac, sort: o.Sort, logID: openID, ident: o.Ident, keyed: src.keyed, opened: true})
 				ob.R = len(w.reps) - 1
 				h.opens++
-				// a selection that leaves entries out is causally open, like what a bounded join leaves
-				unbounded[ob.R] = unbounded[o.Src] && om.Len() == held.Len()
+				// a selection that leaves entries out is causally open, like what a bounded join leaves; so is a log
+				// whose entries carry another id than its own
+				unbounded[ob.R] = unbounded[o.Src] && om.Len() == held.Len() && openID == src.logID
 			case "append":
 				rep := w.reps[o.R]
 				before := rep.log.GetEntries().Slice()
@@ -918,6 +925,18 @@ func (h *histRun) execIter(o hop, opIdx int, ob *obsRaw) {
 	l := rep.log
 	sp := o.Iter
 	opts := &ipfslog.IteratorOptions{}
+	if !sp.HasLT && !sp.HasLTE {
+		// requests without an upper bound reuse ONE options value per replica, as an application that keeps
+		// its options around does: only the fields that legitimately vary are set before each call
+		if h.iterOpts == nil {
+			h.iterOpts = map[int]*ipfslog.IteratorOptions{}
+		}
+		if h.iterOpts[o.R] == nil {
+			h.iterOpts[o.R] = &ipfslog.IteratorOptions{}
+		}
+		opts = h.iterOpts[o.R]
+		opts.GT, opts.GTE, opts.Amount = cid.Cid{}, cid.Cid{}, nil
+	}
 	if sp.GT != nil {
 		opts.GT = cidAt(w, *sp.GT)
 	}
@@ -1172,7 +1191,7 @@ func (h *histRun) ranks() *histRanks {
 	r.hashes.freeze()
 	r.keys.freeze()
 	for _, o := range h.ops {
-		if o.Kind == "new" {
+		if o.Kind == "new" || (o.Kind == "open" && o.LogID != "") {
 			if _, ok := r.logids[o.LogID]; !ok {
 				r.logids[o.LogID] = len(r.logids) + 1
 			}
@@ -1200,6 +1219,30 @@ func (r *histRanks) cidList(cs []cid.Cid) string {
 		v[i] = r.hashes.rank(x.String())
 	}
 	return coqNList(v)
+}
+
+// openSrcID: the log id of the replica an "open" without an id of its own selects from (replicas are
+// numbered in creation order: one per "new"/"open" operation that was executed)
+func openSrcID(ops []hop, i int) string {
+	var ids []string
+	for _, o := range ops[:i] {
+		switch o.Kind {
+		case "new":
+			ids = append(ids, o.LogID)
+		case "open":
+			if o.Src >= 0 && o.Src < len(ids) {
+				id := o.LogID
+				if id == "" {
+					id = ids[o.Src]
+				}
+				ids = append(ids, id)
+			}
+		}
+	}
+	if s := ops[i].Src; s >= 0 && s < len(ids) {
+		return ids[s]
+	}
+	return ""
 }
 
 func sortCoq(s string) string {
@@ -1273,7 +1316,11 @@ func (h *histRun) coq() string {
 			for _, k := range o.Keep {
 				keep = append(keep, r.hashes.rank(cidAt(w, k).String()))
 			}
-			op = fmt.Sprintf("OOpen %s %s %s %s %s", coqNat(o.Src), coqNList(keep), coqN(r.keys.rank(string(w.idents[o.Ident].PublicKey))), sortCoq(o.Sort), coqNList(deny))
+			oid := o.LogID
+			if oid == "" {
+				oid = openSrcID(h.ops, i)
+			}
+			op = fmt.Sprintf("OOpen %s %s %s %s %s %s", coqNat(o.Src), coqNList(keep), coqN(r.logids[oid]), coqN(r.keys.rank(string(w.idents[o.Ident].PublicKey))), sortCoq(o.Sort), coqNList(deny))
 		case "setid":
 			op = fmt.Sprintf("OSetIdentity %s %s", coqNat(o.R), coqN(r.keys.rank(string(w.idents[o.Ident].PublicKey))))
 		case "publish":
